@@ -3,7 +3,7 @@
    `exec` (Section variable of the lemmas): the theorems hold for every such function, i.e. for the
    whole object graph PROVIDED the state handed back after a pause / copy / pickle / save+load is the
    state that was taken (that proviso is exactly what the correspondence sweep tests). *)
-From SS Require Import Model.Prelude Model.L4_LoopBase Gen.Gen_Loop Model.L4_Loop Proofs.P_Loop Proofs.P_LoopInst.
+From SS Require Import Model.Prelude Model.L4_LoopBase Gen.Gen_Loop Model.L4_Loop Proofs.P_Loop Proofs.P_LoopInst Proofs.P_LoopNames.
 From Coq Require Import List Sorted QArith.
 
 Theorem C09_resume_compose : forall (St : Type) (exec : St -> row -> St) pl i j k s, (i <= j)%nat -> (j <= k)%nat ->
@@ -53,3 +53,8 @@ Example C09_nonvacuous :
   run_stops (list nat) (fun s r => r_order r :: s) (plan [0; 1] []) 0%nat [2; 5; 10]%nat [7]%nat
   = run_range (list nat) (fun s r => r_order r :: s) (plan [0; 1] []) 0%nat 10%nat [7]%nat.
 Proof. vm_compute. reflexivity. Qed.
+
+(* a stop time of exactly 0 is not honoured: `if until and ...` treats it as "no stop time" (listed finding until-zero-is-ignored) *)
+Theorem C09_until_zero_runs_to_the_end : forall now rows c idx, run_until now (Some 0%Q) c rows idx = run_until now None c rows idx.
+Proof. exact run_until_zero_is_no_stop. Qed.
+Print Assumptions C09_until_zero_runs_to_the_end.
